@@ -84,6 +84,9 @@ def cases(tier, seed):
                 out.append({"tree": tree, "filter": fname, "fargs": fargs, "out": out_mode, "hard": hard, "ti": ti})
     for out_mode in ("stdout", "file"):
         out.append({"link_root": True, "out": out_mode, "orders": [["LNK", "B", "C"], ["B", "LNK", "C"], ["C", "B", "LNK"]]})
+        out.append({"nested_roots": True, "out": out_mode,
+                    "orders": [["photos/best", "photos", "backup"], ["photos", "photos/best", "backup"],
+                               ["backup", "photos/best", "photos"], ["photos/best", "backup", "photos"]]})
     return out
 
 
@@ -186,9 +189,65 @@ def evaluate_link_root(case):
             "sample": {"filter": "isolate_symlink_root", "out": case["out"]}}
 
 
+def evaluate_nested_roots(case):
+    """--isolate with one root inside another: a file belongs to the first root (in the order given) that contains it,
+    whatever file was looked at before it; roots in the order given, header statistics to match."""
+    viol = []
+    feat = {"filter": "isolate_nested_roots", "output": case["out"]}
+    big, small = ["base", 9000, 3], ["base", 4000, 4]
+    files = {"photos/best/b1": big, "photos/best/b2": big, "photos/p1": big, "photos/zz/p2": big, "backup/k1": big,
+             "photos/best/c1": small, "photos/a/q1": small, "backup/c2": small}
+    with C.Scratch() as sc:
+        C.make_tree(sc.tree, [{"p": p, "k": "file", "c": c} for p, c in files.items()])
+        for order in case["orders"]:
+            def root_of(p):
+                for i, r in enumerate(order):
+                    if p == r or p.startswith(r + "/"):
+                        return i
+                return len(order)
+            want = []
+            for content in (big, small):
+                ps = sorted((p for p, c in files.items() if c == content), key=lambda p: (root_of(p), p))
+                want.append(ps)
+            # redundant: everything outside the first root that holds a member (replication 1)
+            red = sum(len([p for p in ps if root_of(p) != root_of(ps[0])]) for ps in want)
+            for fmt in FORMATS:
+                args = ["group", "--min", "0", "--isolate"] + order + ["-f", fmt]
+                outfile = None
+                if case["out"] == "file":
+                    outfile = os.path.join(sc.root, "report.out")
+                    args += ["-o", outfile]
+                rc, out, err, to = C.fclones(args, sc)
+                if to or rc != 0:
+                    viol.append(dict(feat, kind="crash", format=fmt, detail="rc=%s %s; %s" % (rc, err[-300:], args)))
+                    continue
+                if outfile:
+                    out = C.read_file(outfile)
+                try:
+                    groups, st = parse_output(fmt, out)
+                except Exception as e:
+                    viol.append(dict(feat, kind="unparsable", format=fmt, detail="%s: %r" % (e, out[:300])))
+                    continue
+                got = [[C.u(p)[len(sc.tree) + 1:] for p in g["paths"]] for g in groups]
+                # (the order of the paths of ONE root is fclones' own; that of the roots is the order given)
+                ok = len(got) == len(want) and all(sorted(g) == sorted(w) and [root_of(p) for p in g] == [root_of(p) for p in w]
+                                                   for g, w in zip(got, want))
+                if not ok:
+                    viol.append(dict(feat, kind="isolate_roots_not_contiguous_in_order", format=fmt,
+                                     detail="roots %s: groups %s, expected (up to the order inside one root) %s" % (order, got, want)))
+                if st is not None and st.get("redundant_file_count") != red:
+                    viol.append(dict(feat, kind="stat_mismatch", field="redundant_file_count", format=fmt,
+                                     detail="roots %s: header says %s redundant files, %d lie outside the first root of their group" % (
+                                         order, st.get("redundant_file_count"), red)))
+    return {"violations": viol, "nontrivial": ["isolate_nested_roots", case["out"]], "outcome": ["groups"],
+            "evaluations": len(case["orders"]) * 4, "sample": {"filter": "isolate_nested_roots", "out": case["out"]}}
+
+
 def evaluate(case):
     if case.get("link_root"):
         return evaluate_link_root(case)
+    if case.get("nested_roots"):
+        return evaluate_nested_roots(case)
     viol = []
     fname, fargs = case["filter"], case["fargs"]
     feat = {"filter": fname, "output": case["out"]}
